@@ -39,7 +39,7 @@ def runHeads {α} (eqv : α → α → Bool) : Option α → List α → List α
   | none, a :: t => a :: runHeads eqv (some a) t
   | some p, a :: t => if eqv p a then runHeads eqv (some p) t else a :: runHeads eqv (some a) t
 
-def sameKeys (cols : List Nat) (a b : Row) : Bool := cols.all fun c => Row.at a c == Row.at b c
+def sameKeys (cols : List Nat) (a b : Row) : Bool := cols.all fun c => decide (Row.at a c = Row.at b c)
 
 def opSortAgg (keys : List Nat) (rows : List Row) : List Row := runHeads (sameKeys keys) none rows
 
@@ -54,7 +54,7 @@ def runs {α} (eqv : α → α → Bool) : List α → List (List α)
 
 /-- join keys match: `lkey == rkey && !has_null_key(lkey)` (DataValue equality, NULL never matches) -/
 def keysMatch (lk rk : List Nat) (l r : Row) : Bool :=
-  (lk.zip rk).all fun (a, b) => !(Row.at l a).isNull && Row.at l a == Row.at r b
+  (lk.zip rk).all fun (a, b) => !(Row.at l a).isNull && decide (Row.at l a = Row.at r b)
 
 /-- overlay of a right row on a left row: the columns in `own` come from the right row -/
 def mergeRow (width : Nat) (own : List Nat) (l r : Row) : Row :=
